@@ -341,6 +341,253 @@ class C07(MiscProp):
         self.nonce_sequence(ctx)
         self.idle_library(ctx)
         self.cli_checks(ctx)
+        self.cli_histories(ctx)
+
+    # ---------------------------------------------------------------- (d) CLI histories over a shared file system
+    HIST_RULE = ("(d) CLI histories: sequences of 3..6 real CLI runs (password encrypt, encrypt, key generate) that write to ONE output "
+                 "path, so that every run after the first finds an EARLIER output (same or different password, other mode, a file that "
+                 "arrived through standard output, a bare 36-byte header, foreign bytes that start with a kestrel magic, an empty file) "
+                 "where it is about to write; after every step the file is read back: salts, ephemeral keys, recovered payload keys, "
+                 "generated public keys and locked-key salts of ALL steps of ALL histories (and of what was on disk before) pairwise "
+                 "distinct; two password files made with the same password never have chunk 0 sealed under one (key, nonce) "
+                 "(ct XOR ct' = pt XOR pt'); steps run with KESTREL_VERIF_RANDOM must use exactly the stream's bytes whatever the "
+                 "output path held before")
+    rule = rule + " " + HIST_RULE
+
+    def cli_histories(self, ctx):
+        rng = ctx.rng
+        full = ctx.thorough()
+        wd = tempfile.mkdtemp(prefix="kv_c07h_", dir="/tmp")
+        try:
+            (s, spk), (r, rpk) = self.parties[0], self.parties[1]
+            pw_s = "history sender pw"
+            kr_text, _ = make_keyring([("hist-sender", s, spk, pw_s.encode(), ctx.rbytes(32)), ("hist-recipient", r, rpk, b"rcpt", ctx.rbytes(32))])
+            kr = os.path.join(wd, "keyring.txt")
+            open(kr, "w").write(kr_text)
+            L = rng.choice([48, 64, 200])            # one plaintext length everywhere: chunk 0 of any two files can be compared
+            pts = [ctx.rbytes(L) for _ in range(4)]
+            ptf = []
+            for k, P in enumerate(pts):
+                ptf.append(os.path.join(wd, "plain_%d.bin" % k))
+                open(ptf[k], "wb").write(P)
+            PWS = ["history pw A", "another pw B"]
+            genpw = "hist gen pw"
+
+            def P_(pw, pt, dest="o", stream=False):
+                return {"k": "pass", "pw": pw, "pt": pt, "dest": dest, "stream": ctx.rbytes(32 + rng.choice([0, 9])) if stream else None}
+
+            def K_(pt, dest="o", stream=False):
+                return {"k": "key", "pt": pt, "dest": dest, "stream": ctx.rbytes(64 + rng.choice([0, 9])) if stream else None}
+
+            def G_(stream=False):
+                return {"k": "gen", "stream": ctx.rbytes(64) if stream else None}
+
+            def S_(what):
+                return {"k": "seed", "what": what, "bytes": ctx.rbytes(32), "junk": ctx.rbytes(L + 32)}
+            hists = [
+                [P_(0, 0), P_(0, 1), P_(1, 2), P_(0, 0), P_(0, 0, stream=True)],                # one archive refreshed again and again
+                [K_(0), P_(0, 1), K_(1), K_(1), P_(0, 1), K_(2, stream=True)],                  # key mode and password mode taking turns
+                [G_(), G_(), G_(stream=True), G_()],                                            # key generate appends to one keyring file
+                [S_("pass-header+junk"), P_(0, 0), S_("header-of-previous"), P_(0, 1), S_("key-header+junk"), K_(0), S_("empty"), P_(1, 0)],
+                [P_(0, 0, dest="stdout"), P_(0, 1), K_(0, dest="stdout"), K_(1), P_(1, 2, dest="stdout"), P_(1, 3)],
+                [P_(0, 0), P_(0, 1, stream=True), P_(1, 1, stream=True), K_(0, stream=True)],
+            ]
+            for _ in range(12 if full else 3):
+                h = []
+                for _ in range(rng.randrange(3, 7)):
+                    c = rng.randrange(10)
+                    if c < 5:
+                        h.append(P_(rng.randrange(2), rng.randrange(4), dest=rng.choice(["o", "o", "stdout"]), stream=rng.random() < 0.2))
+                    elif c < 7:
+                        h.append(K_(rng.randrange(4), dest=rng.choice(["o", "o", "stdout"]), stream=rng.random() < 0.2))
+                    elif c < 8:
+                        h.append(G_())
+                    else:
+                        h.append(S_(rng.choice(["pass-header+junk", "header-of-previous", "key-header+junk", "empty", "previous-truncated"])))
+                hists.append(h)
+
+            def run_hist(hi):
+                path = os.path.join(wd, "out_%d.ktl" % hi)
+                log = []
+                for st in hists[hi]:
+                    before = open(path, "rb").read() if os.path.exists(path) else None
+                    ent = {"step": st, "before": before, "rc": 0, "stderr": "", "argv": None, "env": None}
+                    if st["k"] == "seed":
+                        prev = before or b""
+                        data = {"pass-header+junk": PASS_MAGIC + st["bytes"] + st["junk"], "key-header+junk": PROLOGUE + st["bytes"] + st["junk"],
+                                "header-of-previous": prev[:36], "previous-truncated": prev[:len(prev) // 2], "empty": b""}[st["what"]]
+                        open(path, "wb").write(data)
+                        ent["after"] = data
+                        log.append(ent)
+                        continue
+                    env, stdin = {}, None
+                    if st["k"] == "pass":
+                        args = ["password", "encrypt", ptf[st["pt"]], "--env-pass"]
+                        env["KESTREL_PASSWORD"] = PWS[st["pw"]]
+                    elif st["k"] == "key":
+                        args = ["encrypt", ptf[st["pt"]], "-t", "hist-recipient", "-f", "hist-sender", "-k", kr, "--env-pass"]
+                        env["KESTREL_PASSWORD"] = pw_s
+                    else:
+                        args = ["key", "generate", "--env-pass"]
+                        env["KESTREL_PASSWORD"] = genpw
+                        stdin = b"hist-key\n"
+                    to_stdout = st.get("dest") == "stdout"
+                    if not to_stdout:
+                        args += ["-o", path]
+                    if st["stream"] is not None:
+                        env["KESTREL_VERIF_RANDOM"] = st["stream"].hex()
+                    rc, so, se = cli(args, env, stdin=stdin)
+                    if to_stdout and rc == 0:
+                        open(path, "wb").write(so)       # the earlier encryption reaches the path by redirection
+                    ent.update(rc=rc, stderr=se, argv=args, env=env)
+                    ent["after"] = open(path, "rb").read() if os.path.exists(path) else None
+                    log.append(ent)
+                return log
+            with ThreadPoolExecutor(max_workers=vlib.NPROC) as ex:
+                logs = list(ex.map(run_hist, range(len(hists))))
+            self.history_oracles(ctx, hists, logs, s, spk, r, rpk, pts, PWS, genpw)
+        finally:
+            shutil.rmtree(wd, ignore_errors=True)
+
+    @staticmethod
+    def describe_before(b):
+        if b is None:
+            return "no file"
+        kind = {bytes(PASS_MAGIC): "password file", bytes(PROLOGUE): "key-encrypted file"}.get(bytes(b[:4]), "[Key] text" if b[:5] == b"[Key]" else "other bytes")
+        return "%d bytes, %s, first 40: %s" % (len(b), kind, b[:40].hex())
+
+    def history_oracles(self, ctx, hists, logs, s, spk, r, rpk, pts, PWS, genpw):
+        salts, ephs, hs_msgs, gen_pubs, gen_salts = [], [], [], [], []        # (value, history, step)
+        passfiles = []
+        lib, lib_meta = [], []
+        for hi, log in enumerate(logs):
+            script = []
+            for si, ent in enumerate(log):
+                st = ent["step"]
+                if st["k"] == "seed":
+                    script.append({"harness_writes": st["what"], "bytes": (ent["after"] or b"")[:80].hex()})
+                    if st["what"] in ("pass-header+junk",) and len(ent["after"]) >= 36:
+                        salts.append((ent["after"][4:36], hi, si, "on-disk"))
+                    continue
+                script.append({"argv": ent["argv"], "env": ent["env"], "output_path_held_before": self.describe_before(ent["before"]),
+                               "stdin": "hist-key\\n" if st["k"] == "gen" else ""})
+                inp = {"driver": "cli-history", "history": hi, "failing_step": si, "steps": list(script),
+                       "files": "plain_k.bin: %d random bytes each; keyring: hist-sender / hist-recipient" % len(pts[0]),
+                       "note": "the steps run in this order in one directory; standard-output results are written to the -o path of the later steps"}
+                ent["inp"] = inp
+                self.ran(ctx, "cli-history/%s%s%s" % (st["k"], "/stream" if st["stream"] is not None else "",
+                                                       "/over-" + self.describe_before(ent["before"]).split(", ")[1] if ent["before"] is not None else "/new-path"))
+                F = ent["after"]
+                if not self.check(ctx, ent["rc"] == 0 and F is not None, inp, "the CLI run succeeds and leaves the output", "rc=%d %s" % (ent["rc"], ent["stderr"][-200:])):
+                    continue
+                if st["k"] == "pass":
+                    if not self.check(ctx, len(F) == 36 + 32 + len(pts[0]) and F[:4] == PASS_MAGIC, inp, "a password file of %d bytes" % (68 + len(pts[0])), "%d bytes %s" % (len(F), F[:4].hex())):
+                        continue
+                    salts.append((F[4:36], hi, si, "output"))
+                    passfiles.append((F, st["pw"], pts[st["pt"]], hi, si, inp))
+                    if st["stream"] is not None:
+                        lib.append("pass_enc %s %s %s - - -" % (hexs(PWS[st["pw"]].encode()), hexs(st["stream"][0:32]), hexs(pts[st["pt"]])))
+                        lib_meta.append((F, inp, "CLI output = library pass_encrypt with salt = stream[0:32] = %s, whatever the output path held before" % st["stream"][0:32].hex()))
+                elif st["k"] == "key":
+                    if not self.check(ctx, len(F) == 132 + 32 + len(pts[0]) and F[:4] == PROLOGUE, inp, "a key-encrypted file of %d bytes" % (164 + len(pts[0])), "%d bytes %s" % (len(F), F[:4].hex())):
+                        continue
+                    ephs.append((F[4:36], hi, si, "output"))
+                    hs_msgs.append((F[4:132], hi, si, inp))
+                    if st["stream"] is not None:
+                        lib.append(("key", st["stream"], pts[st["pt"]]))
+                        lib_meta.append((F, inp, "CLI output = library key_encrypt with payload key = stream[0:32], ephemeral = stream[32:64], whatever the output path held before"))
+                else:
+                    text = F.decode("utf-8", "replace")
+                    pubs = re.findall(r"PublicKey = (\S+)", text)
+                    sks = re.findall(r"PrivateKey = (\S+)", text)
+                    n_before = len(re.findall(r"PublicKey = ", (ent["before"] or b"").decode("utf-8", "replace")))
+                    if not self.check(ctx, len(pubs) == n_before + 1 and len(sks) == n_before + 1, inp, "one key is appended to the %d in the file" % n_before, "%d public / %d private keys" % (len(pubs), len(sks))):
+                        continue
+                    try:
+                        gen_pubs.append((base64.b64decode(pubs[-1])[:32], hi, si, "output"))
+                        gen_salts.append((base64.b64decode(sks[-1])[4:36], hi, si, "output"))
+                    except Exception:
+                        self.check(ctx, False, inp, "the appended key is base64", pubs[-1] + " " + sks[-1])
+                    if st["stream"] is not None:
+                        ent["gen_stream"] = (pubs[-1], sks[-1])
+        # deterministic stream: the bytes used are the stream's, not something found at the output path
+        xp = drv(ctx.bin, ["xpub %s" % hexs(x[1][32:64]) for x in lib if isinstance(x, tuple)])
+        k = 0
+        lines = []
+        for x in lib:
+            if isinstance(x, tuple):
+                epk = unhex(xp[k].get("out", "-"))
+                k += 1
+                lines.append("key_enc %s %s %s %s %s %s %s - - -" % (hexs(s), hexs(spk), hexs(rpk), hexs(x[1][32:64]), hexs(epk), hexs(x[1][0:32]), hexs(x[2])))
+            else:
+                lines.append(x)
+        for (F, inp, what), lr in zip(lib_meta, drv(ctx.bin, lines) if lines else []):
+            want = unhex(lr.get("out", "-"))
+            self.check(ctx, F == want, inp, what, "first difference at byte %s; bytes 4..36 = %s" % (
+                next((i for i, (a, b) in enumerate(zip(F, want)) if a != b), None), F[4:36].hex()))
+        for log in logs:
+            for ent in log:
+                if "gen_stream" in ent:
+                    st = ent["step"]["stream"]
+                    pk = unhex(drv(ctx.bin, ["xpub %s" % hexs(st[0:32])])[0].get("out", "-"))
+                    lk = clidrv_ops(["sk_lock %s %s %s" % (hexs(st[0:32]), hexs(genpw.encode()), hexs(st[32:64]))])[0]
+                    want = (encode_pk(pk), unhex(lk.get("out", "-")).decode())
+                    self.check(ctx, ent["gen_stream"] == want, ent["inp"], "appended key: private key = stream[0:32], locked with salt = stream[32:64]: %s %s" % want,
+                               "%s %s" % ent["gen_stream"])
+        # recovered payload keys
+        nd = drv(ctx.bin, ["noise_dec %s %s %s %s" % (hexs(r), hexs(rpk), hexs(PROLOGUE), hexs(m[0])) for m in hs_msgs])
+        pkeys = []
+        for m, x in zip(hs_msgs, nd):
+            if self.check(ctx, x["outcome"] == "ok", m[3], "the recipient recovers the payload key from the handshake", x["raw"][:200]):
+                pkeys.append((unhex(x.get("out", "-")), m[1], m[2], "output"))
+
+        # same password, two files: chunk 0 (nonce 0) must not be sealed under one key
+        n_xor = 0
+        for a in range(len(passfiles)):
+            for b in range(a + 1, len(passfiles)):
+                Fa, pa, Pa, ha, sa, _ = passfiles[a]
+                Fb, pb, Pb, hb, sb, inpb = passfiles[b]
+                if pa != pb:
+                    continue
+                ca, cb = Fa[52:52 + len(Pa)], Fb[52:52 + len(Pb)]
+                same_stream = bytes(x ^ y for x, y in zip(ca, cb)) == bytes(x ^ y for x, y in zip(Pa, Pb))
+                n_xor += same_stream
+                if same_stream and n_xor > 3:
+                    self.count(ctx, "further-key-nonce-reuses-not-reported")
+                    continue
+                self.check(ctx, not same_stream, dict(inpb, compared_with={"history": ha, "step": sa}),
+                           "two password files made with the same password are not sealed under one (key, nonce): ct XOR ct' != pt XOR pt' for chunk 0",
+                           "chunk 0 of step %d of history %d and of step %d of history %d: ct XOR ct' == pt XOR pt' (same key stream); tags %s"
+                           % (sa, ha, sb, hb, "equal" if Fa[52 + len(Pa):] == Fb[52 + len(Pb):] else "differ"))
+
+        def distinct(vals, what, cross_kind_only=False):
+            seen, reported = {}, 0
+            for v, hi, si, origin in vals:
+                kind = None
+                if cross_kind_only:
+                    v, kind = v
+                if v in seen:
+                    hj, sj, oj, kj = seen[v]
+                    if cross_kind_only and kj == kind:
+                        continue                      # reported by the per-kind pass
+                    reported += 1
+                    if reported > 3:
+                        self.count(ctx, "further-repeated-values-not-reported")
+                        continue
+                    inp = logs[hi][si].get("inp") or {"driver": "cli-history", "history": hi, "step": si}
+                    self.check(ctx, False, inp, "no two outputs share %s (across all steps of all histories, and what was on disk before)" % what,
+                               "step %d of history %d has the same %s as %s step %d of history %d: %s" % (si, hi, what, oj, sj, hj, v.hex()))
+                else:
+                    seen[v] = (hi, si, origin, kind)
+            self.check(ctx, True, None, None, None)
+            return len(seen)
+        kinds = [(salts, "a password-file salt"), (ephs, "an ephemeral key"), (pkeys, "a payload key"), (gen_pubs, "a generated key"),
+                 (gen_salts, "a locked-key salt")]
+        n_vals = sum(distinct(vs, what) for vs, what in kinds)
+        distinct([((v, what), hi, si, o) for vs, what in kinds for (v, hi, si, o) in vs], "a random value (one used as %s, the other as something else)" % "/".join(w.split(" ", 1)[1] for _, w in kinds),
+                 cross_kind_only=True)
+        self.count(ctx, "history-random-values", n_vals)
+        self.sample(ctx, {"gen": "cli-history", "histories": len(hists), "steps": sum(len(h) for h in hists), "distinct_values": n_vals})
 
     # ---------------------------------------------------------------- (a)
     def gen_op(self, ctx):
@@ -837,6 +1084,48 @@ def view_of(F, hdr):
     return F[0:36] + b"".join(r[0:16] for r in recs), recs
 
 
+def c08_wellformed(F, hdr, n):
+    """(None, records) when F[hdr:] is exactly a sequence of chunk records as docs/file-format.txt lays them out — record i carries
+    counter i, the last-chunk flag is 1 on the final record and on no other, the final record ends at end-of-file, no record is
+    longer than 64 KiB and the record lengths sum to n — otherwise (what is wrong, records walked so far)"""
+    i, k, total = hdr, 0, 0
+    while True:
+        if i + 32 > len(F):
+            return "record %d would start at offset %d but the file has %d bytes (no final record seen)" % (k, i, len(F)), k
+        ctr, flag, ln = int.from_bytes(F[i:i + 8], "big"), int.from_bytes(F[i + 8:i + 12], "big"), int.from_bytes(F[i + 12:i + 16], "big")
+        if ctr != k:
+            return "record %d at offset %d carries counter %d" % (k, i, ctr), k
+        if flag not in (0, 1):
+            return "record %d at offset %d carries flag %d" % (k, i, flag), k
+        if ln > BIG or i + 32 + ln > len(F):
+            return "record %d at offset %d announces %d bytes, the file ends at %d" % (k, i, ln, len(F)), k
+        total += ln
+        i += 32 + ln
+        k += 1
+        if flag == 1:
+            break
+    if i != len(F):
+        return "%d record(s) end at offset %d, the file has %d bytes: %d bytes follow the final record (%s)" % (
+            k, i, len(F), len(F) - i, F[i:i + 40].hex()), k
+    if total != n:
+        return "the record lengths sum to %d, the plaintext has %d bytes" % (total, n), k
+    return None, k
+
+
+def c08_ptyrun(job):
+    """tools/ptyrun.py in a process of its own (fork + setsid + controlling-terminal games stay out of this process)"""
+    try:
+        p = subprocess.run([sys.executable, os.path.join(vlib.VERIF, "tools", "ptyrun.py")], input=json.dumps(job).encode(),
+                           stdout=subprocess.PIPE, stderr=subprocess.PIPE, timeout=float(job.get("timeout", 120)) + 30)
+        d = json.loads(p.stdout.decode() or "{}")
+    except (subprocess.TimeoutExpired, ValueError) as e:
+        d = {"rc": 125, "error": repr(e)[:200]}
+    d.setdefault("rc", 125)
+    for k in ("stdout", "stderr", "pty"):
+        d[k] = bytes.fromhex(d.get(k, ""))
+    return d
+
+
 class C08(MiscProp):
     id = "C08"
     rule = ("library: plaintext lengths 0,1,5,32,33,100 (thorough also 2, 31) under several read partitions (one record per non-empty read) and "
@@ -863,6 +1152,202 @@ class C08(MiscProp):
         self.library_mixed(ctx)
         self.fresh_ephemeral(ctx)
         self.cli_part(ctx)
+        self.cli_sizes(ctx)
+        self.pty_part(ctx)
+
+    RULE_SIZES_PTY = (
+        "CLI size boundaries: plaintexts of 0, 1, 65535, 65536, 65537, 2*65536-1 .. 2*65536+1, 3*65536 and three random multiples of 64 KiB "
+        "(+-1) bytes through `encrypt` and `password encrypt` in every combination of input (regular file, standard input) and output "
+        "(-o new path, -o over an existing file that is 32 bytes longer / 1 byte shorter / twice as long as the result, standard output): "
+        "the file must be EXACTLY magic, bytes 4..36/132 and a well-formed record sequence (record i has counter i, last flag on the final "
+        "record only, which ends at end-of-file, lengths sum to |P|), hence 132 (36) + 32*records + |P| bytes; same cleartext view for all "
+        "identities and output modes under one random stream. CLI on a terminal (tools/ptyrun.py): the password is PROMPTED for (no "
+        "--env-pass) with a pseudo-terminal on standard input, with and without a controlling terminal (/dev/tty opens / fails), while "
+        "standard output and standard error are, independently, a pipe, a regular file or the terminal, also after a wrong password / a "
+        "mismatching confirmation: what arrives on standard output (resp. at -o) must be the encrypted file and nothing else — magic first, "
+        "well-formed records to end-of-file, exact length, no keyring name, public key or password")
+    rule = rule + " " + RULE_SIZES_PTY
+
+    # ---------------------------------------------------------------- real CLI: size boundaries in every i/o mode
+    def c08_keyring(self, ctx, wd):
+        names = ["alice-sender-%s" % ctx.rbytes(5).hex(), "Bob R. Ecipient %s" % ctx.rbytes(5).hex(), "zoë-dritte-%s" % ctx.rbytes(4).hex()]
+        kps = keypairs(ctx, len(names))
+        pws = ["unlock-%d-%s" % (i, ctx.rbytes(3).hex()) for i in range(len(names))]
+        kr_text, _ = make_keyring([(nm, sk, pk, pw.encode(), ctx.rbytes(32)) for nm, (sk, pk), pw in zip(names, kps, pws)])
+        kr = os.path.join(wd, "keyring.txt")
+        open(kr, "w", encoding="utf-8").write(kr_text)
+        needles = []
+        for nm, (sk, pk) in zip(names, kps):
+            needles += needles_for(pk, "public-key-of[%s]" % nm)
+            needles += [("name[%s]" % nm, nm.encode("utf-8")), ("name-latin1[%s]" % nm, nm.encode("latin1", "replace"))]
+        return names, kps, pws, kr, needles
+
+    def c08_judge_file(self, ctx, F, hdr, n, inp, needles):
+        """the statement of C08 on one encrypted file F (bytes) of an n-byte plaintext; returns (view, records) or None"""
+        magic = PROLOGUE if hdr == 132 else PASS_MAGIC
+        hits = find_needles(F, needles)
+        self.check(ctx, not hits, inp, "no keyring name, public key (raw / base64 / keyring encoding / hex) or password in the output", "found " + ", ".join(hits))
+        if not self.check(ctx, F[:4] == magic, inp, "the output starts with the format magic " + magic.hex(), F[:48].hex() + " = " + repr(F[:48])):
+            return None
+        bad, nrec = c08_wellformed(F, hdr, n)
+        if not self.check(ctx, bad is None, inp,
+                          "after the %d header bytes the file is exactly a sequence of chunk records (counter i, last flag on the final record only, "
+                          "final record ends at end-of-file, lengths sum to the %d plaintext bytes), i.e. %d + 32*records + %d bytes long" % (hdr, n, hdr, n),
+                          "%d bytes: %s" % (len(F), bad)):
+            return None
+        self.check(ctx, len(F) == hdr + 32 * nrec + n, inp, "length = %d + 32*%d + %d = %d" % (hdr, nrec, n, hdr + 32 * nrec + n), "%d bytes" % len(F))
+        return view_of(F, hdr)[0], nrec
+
+    def cli_sizes(self, ctx):
+        rng = ctx.rng
+        full = ctx.thorough()
+        wd = tempfile.mkdtemp(prefix="kv_c08z_", dir="/tmp")
+        try:
+            names, kps, pws, kr, needles = self.c08_keyring(ctx, wd)
+            sizes = [0, 1, BIG - 1, BIG, BIG + 1, 2 * BIG - 1, 2 * BIG, 2 * BIG + 1, 3 * BIG]
+            mult = rng.randrange(4, 9)
+            sizes += [mult * BIG - 1, mult * BIG, mult * BIG + 1]
+            if full:
+                sizes += [3 * BIG - 1, 3 * BIG + 1, 16 * BIG, 16 * BIG + 1] + [rng.randrange(1, 20) * BIG + rng.choice([-1, 0, 0, 1]) for _ in range(8)]
+            sizes = sorted(set(sizes))
+            dests = ["new", "stdout", "existing+32", "existing-1", "existing*2"]
+            jobs, meta = [], []
+            for n in sizes:
+                P = ctx.rbytes(n)
+                pf = os.path.join(wd, "p_%d.bin" % n)
+                open(pf, "wb").write(P)
+                streams = {"encrypt": ctx.rbytes(64), "password-encrypt": ctx.rbytes(32)}
+                for kind in ("encrypt", "password-encrypt"):
+                    hdr = 132 if kind == "encrypt" else 36
+                    expect = hdr + 32 * max(1, -(-n // BIG)) + n
+                    combos = [(src, d) for src in ("file", "stdin") for d in dests]
+                    if not full:
+                        # every size: file -> new path, file -> stdout, and three more drawn from the rest
+                        rest = [c for c in combos if c not in (("file", "new"), ("file", "stdout"))]
+                        combos = [("file", "new"), ("file", "stdout")] + rng.sample(rest, 3)
+                    for (src, dest) in combos:
+                        a, b = rng.sample(range(len(names)), 2)
+                        pw = rng.choice(["a pass phrase of some length", "x", "pässwörd-%s" % ctx.rbytes(3).hex()])
+                        o = None
+                        if dest != "stdout":
+                            o = os.path.join(wd, "o_%d_%s_%s_%s.bin" % (n, kind, src, dest.replace("*", "x")))
+                            if dest != "new":
+                                old_len = {"existing+32": expect + 32, "existing-1": max(0, expect - 1), "existing*2": 2 * expect}[dest]
+                                open(o, "wb").write(((names[a] + "|" + names[b] + "|").encode("utf-8") * (old_len // 20 + 1))[:old_len])
+                        use_stream = src == "file"
+                        if kind == "encrypt":
+                            args = ["encrypt"] + ([pf] if src == "file" else []) + ["-t", names[b], "-f", names[a], "-k", kr, "--env-pass"]
+                            env = {"KESTREL_PASSWORD": pws[a]}
+                        else:
+                            args = ["password", "encrypt"] + ([pf] if src == "file" else []) + ["--env-pass"]
+                            env = {"KESTREL_PASSWORD": pw}
+                        if o:
+                            args += ["-o", o]
+                        if use_stream:
+                            env["KESTREL_VERIF_RANDOM"] = streams[kind].hex()
+                        jobs.append({"args": args, "env": env, "stdin": P if src == "stdin" else None})
+                        meta.append({"kind": kind, "n": n, "src": src, "dest": dest, "out": o, "hdr": hdr, "pw": pw if kind != "encrypt" else None,
+                                     "group": (kind, n) if use_stream else None})
+            results = cli_many(jobs)
+            views = collections.defaultdict(set)
+            for j, m, (rc, so, se) in zip(jobs, meta, results):
+                inp = {"driver": "cli", "argv": j["args"], "env": j["env"], "plaintext_len": m["n"], "plaintext_from": m["src"],
+                       "output": {"new": "-o, a path that does not exist", "stdout": "standard output (a pipe)"}.get(
+                           m["dest"], "-o, a path that holds a file of (expected result %s) bytes of keyring names" % m["dest"][8:]),
+                       "keyring_names": names}
+                self.ran(ctx, "cli-sizes/%s/%s->%s" % (m["kind"], m["src"], m["dest"]))
+                self.count(ctx, "cli-sizes-length:%s" % ("multiple-of-64KiB" if m["n"] and m["n"] % BIG == 0 else
+                                                         "64KiB*k+-1" if m["n"] > 1 and (m["n"] + 1) % BIG in (0, 2) else "0-or-1"))
+                F = so if m["out"] is None else (open(m["out"], "rb").read() if os.path.exists(m["out"]) else None)
+                if not self.check(ctx, rc == 0 and F is not None, inp, "the CLI run succeeds and writes the file", "rc=%d %s" % (rc, se[-200:])):
+                    continue
+                nd = list(needles) + ([("password", m["pw"].encode("utf-8"))] if m["pw"] and len(m["pw"]) >= 10 else [])
+                got = self.c08_judge_file(ctx, F, m["hdr"], m["n"], inp, nd)
+                if got and m["src"] == "file":
+                    self.count(ctx, "cli-file-input-one-record-per-64KiB:%s" % ("yes" if got[1] == max(1, -(-m["n"] // BIG)) else "NO"))
+                if got and m["group"]:
+                    views[m["group"]].add(got[0])
+            for g, vs in views.items():
+                self.check(ctx, len(vs) == 1, {"driver": "cli", "group": "%s of %d bytes from a regular file under one random stream: all identities / passwords, -o (new, existing) and standard output" % g},
+                           "identical cleartext views and lengths whatever the identities and wherever the output goes", "%d different views" % len(vs))
+            self.sample(ctx, {"gen": "cli-sizes", "sizes": sizes, "runs": len(jobs)})
+        finally:
+            shutil.rmtree(wd, ignore_errors=True)
+
+    # ---------------------------------------------------------------- real CLI on a (pseudo-)terminal, passwords prompted for
+    def pty_part(self, ctx):
+        rng = ctx.rng
+        full = ctx.thorough()
+        wd = tempfile.mkdtemp(prefix="kv_c08t_", dir="/tmp")
+        try:
+            names, kps, pws, kr, needles = self.c08_keyring(ctx, wd)
+            lens = [0, 1, 10, 1000, BIG]
+            pfs = {}
+            for n in lens:
+                pfs[n] = os.path.join(wd, "p_%d.bin" % n)
+                open(pfs[n], "wb").write(ctx.rbytes(n))
+            runs = []
+
+            def add(kind, ctty, so, se, n, to_file, script):
+                i = len(runs)
+                a, b = rng.sample(range(len(names)), 2)
+                pw = "file password %s" % ctx.rbytes(3).hex()
+                o = os.path.join(wd, "out_%d.bin" % i) if to_file else None
+                if kind == "encrypt":
+                    argv = ["encrypt", pfs[n], "-t", names[b], "-f", names[a], "-k", kr]
+                    typed = [pws[a]] if script == "right" else ["not " + pws[a], pws[a]]
+                else:
+                    argv = ["password", "encrypt", pfs[n]]
+                    typed = [pw, pw] if script == "right" else [pw, pw + " typo", pw, pw]
+                if o:
+                    argv += ["-o", o]
+                runs.append({"kind": kind, "n": n, "o": o, "script": script, "pw": pw, "hdr": 132 if kind == "encrypt" else 36,
+                             "job": {"argv": [vlib.CLIDRV] + argv, "env": cli_env(), "ctty": ctty, "stdin": "pty", "stdout": so, "stderr": se,
+                                     "stdout_path": os.path.join(wd, "stdout_%d" % i), "stderr_path": os.path.join(wd, "stderr_%d" % i),
+                                     "typed": typed, "timeout": 120}})
+            for ctty in (True, False):
+                for so in ("pipe", "file"):
+                    for se in ("pipe", "file", "pty"):
+                        for kind in ("encrypt", "password-encrypt"):
+                            add(kind, ctty, so, se, rng.choice(lens), False, "right")
+            for _ in range(24 if full else 6):        # -o: standard output may be anything, the terminal included
+                add(rng.choice(["encrypt", "password-encrypt"]), rng.random() < 0.5, rng.choice(["pipe", "file", "pty"]),
+                    rng.choice(["pipe", "file", "pty"]), rng.choice(lens), True, "right")
+            for _ in range(16 if full else 6):        # a wrong password / a mismatching confirmation first, then the right one
+                add(rng.choice(["encrypt", "password-encrypt"]), rng.random() < 0.5, rng.choice(["pipe", "file"]),
+                    rng.choice(["pipe", "file", "pty"]), rng.choice(lens), rng.random() < 0.25, "retry")
+            with ThreadPoolExecutor(max_workers=vlib.NPROC) as ex:
+                results = list(ex.map(lambda ru: c08_ptyrun(ru["job"]), runs))
+            for ru, res in zip(runs, results):
+                j = ru["job"]
+                inp = {"driver": "cli-on-pty (tools/ptyrun.py)", "argv": j["argv"][1:], "plaintext_len": ru["n"], "keyring_names": names,
+                       "terminal": {"standard_input": "pseudo-terminal", "controlling_terminal": "the pseudo-terminal (/dev/tty opens)" if j["ctty"] else "none (setsid; /dev/tty does not open)",
+                                    "standard_output": j["stdout"], "standard_error": j["stderr"]},
+                       "typed_at_the_prompts": j["typed"], "ptyrun_job": dict(j, env="the caller's environment without KESTREL_* variables")}
+                self.ran(ctx, "cli-pty/%s/%s%s" % (ru["kind"], ru["script"], "/-o" if ru["o"] else "/to-stdout"))
+                self.count(ctx, "cli-pty-env:ctty=%s,stdout=%s,stderr=%s" % ("yes" if j["ctty"] else "no", j["stdout"], j["stderr"]))
+                if ru["o"]:
+                    F = open(ru["o"], "rb").read() if os.path.exists(ru["o"]) else None
+                    inp["output"] = "-o file"
+                elif j["stdout"] == "pipe":
+                    F = res["stdout"]
+                    inp["output"] = "what arrived on standard output (a pipe)"
+                else:
+                    F = open(j["stdout_path"], "rb").read() if os.path.exists(j["stdout_path"]) else None
+                    inp["output"] = "the regular file standard output was redirected to"
+                what = "rc=%s sent=%s/%d %s stderr=%r terminal=%r" % (res.get("rc"), res.get("sent"), len(j["typed"]), res.get("error", ""),
+                                                                     res["stderr"][-200:], res["pty"][-200:])
+                if not self.check(ctx, res.get("rc") == 0 and F is not None, inp, "the CLI run succeeds once the password is typed", what):
+                    continue
+                nd = list(needles) + [("typed[%d]" % k, t.encode("utf-8")) for k, t in enumerate(j["typed"]) if len(t) >= 10]
+                self.c08_judge_file(ctx, F, ru["hdr"], ru["n"], inp, nd)
+                if ru["o"]:
+                    # with -o nothing of the encrypted file is on standard output; what else is there is not C08's subject: recorded
+                    other = res["stdout"] if j["stdout"] == "pipe" else (open(j["stdout_path"], "rb").read() if j["stdout"] == "file" else b"")
+                    self.count(ctx, "cli-pty-with-o-standard-output-empty:%s" % ("yes" if not other else "NO"))
+            self.sample(ctx, {"gen": "cli-pty", "runs": len(runs), "environments": "ctty x stdout{pipe,file,pty} x stderr{pipe,file,pty}"})
+        finally:
+            shutil.rmtree(wd, ignore_errors=True)
 
     def fresh_ephemeral(self, ctx):
         """"a fresh ephemeral public key": default encryptions (nothing injected, production random source) repeated in ONE
@@ -1146,6 +1631,9 @@ class C08(MiscProp):
                 self.check(ctx, len(F) == m["hdr"] + 32 * nrec + m["n"] and sum(int.from_bytes(x[12:16], "big") for x in recs) == m["n"], inp,
                            "length = %d + 32*records + %d with the record lengths summing to the plaintext length" % (m["hdr"], m["n"]),
                            "%d bytes, %d records" % (len(F), nrec))
+                wf_bad, _ = c08_wellformed(F, m["hdr"], m["n"])
+                self.check(ctx, wf_bad is None, inp, "after the header the file is exactly a well-formed record sequence (counter i, last flag on the "
+                           "final record only, which ends at end-of-file)", "%d bytes: %s" % (len(F), wf_bad))
                 if not m["stdin"]:
                     # how many reads a regular file takes is the operating system's business: recorded, not judged
                     self.count(ctx, "cli-file-input-one-record-per-64KiB:%s" % ("yes" if nrec == max(1, -(-m["n"] // BIG)) else "NO"))
@@ -1202,6 +1690,46 @@ def trace_lookahead(tr):
     return best
 
 
+# runs one command from a SMALL intermediate process and reports the command's own exit status and peak RSS.  (ru_maxrss of a child
+# started directly from this Python process starts at the RSS of the forked copy of Python — hundreds of MiB once the test data is
+# loaded — and would hide anything the command itself uses below that.)
+C11_SPAWN_HELPER = r'''
+import os, sys, resource, json
+lim = int(sys.argv[1])
+pid = os.fork()
+if pid == 0:
+    fd = os.open("/dev/null", os.O_WRONLY)
+    os.dup2(fd, 1)
+    if lim > 0:
+        resource.setrlimit(resource.RLIMIT_AS, (lim * 1024, lim * 1024))
+    os.execv(sys.argv[2], sys.argv[2:])
+_, st, ru = os.wait4(pid, 0)
+sys.stdout.write(json.dumps({"rc": os.waitstatus_to_exitcode(st), "maxrss": ru.ru_maxrss * 1024}))
+'''
+
+
+def c11_measured_run(argv, env, as_limit_kib=0, timeout=120):
+    """{"rc", "maxrss" (bytes, of the command alone), "stderr"}; as_limit_kib > 0: RLIMIT_AS for the command"""
+    p = subprocess.Popen([sys.executable, "-S", "-E", "-c", C11_SPAWN_HELPER, str(as_limit_kib), vlib.CLIDRV] + list(argv), env=cli_env(env),
+                         stdin=subprocess.DEVNULL, stdout=subprocess.PIPE, stderr=subprocess.PIPE, start_new_session=True)
+
+    def killall():
+        try:
+            os.killpg(p.pid, 9)
+        except OSError:
+            pass
+    dog = threading.Timer(timeout, killall)
+    dog.start()
+    out, err = p.communicate()
+    dog.cancel()
+    try:
+        d = json.loads(out.decode())
+    except ValueError:
+        d = {"rc": 124, "maxrss": 0}
+    d["stderr"] = err.decode("utf-8", "replace")[-300:]
+    return d
+
+
 class C11(MiscProp):
     id = "C11"
     rule = ("measurement: the library encrypts a generator stream (never materialised) into a counting sink, and decrypts a "
@@ -1218,7 +1746,14 @@ class C11(MiscProp):
             "filter, to its stdout pipe; encrypt / decrypt, both modes): after 8 MiB and after 64 MiB (thorough 256 MiB; decrypt filters: "
             "all but the last 100 kB) the output must have reached fed - pipe capacity - two chunks while the process still waits for "
             "input, and VmRSS / VmHWM from /proc must not differ by 4 MiB between the two pauses; regular files of both sizes: ru_maxrss "
-            "within 8 MiB. non-trivial = all; distinct = distinct driver lines / argv")
+            "within 8 MiB (each command is started from a small intermediate process so that ru_maxrss is the command's own); the same pauses and the same "
+            "regular-file comparison with -o naming a path that ALREADY EXISTS (non-empty file, empty file, symlink to a file). forged chunk headers: "
+            "the library decrypts its own 4-chunk file after the length field of the first / a later / the last chunk header was overwritten with "
+            "65537, 2^17, 2^20, 2^24, 2^28, 2^31, 2^32-1 or a random value above 65536 (rest of the file kept / cut after the header / padded so that "
+            "the announced body is present), both modes, dev and release: an error value, peak heap, heap across I/O calls and the largest single "
+            "request within the same constants as for genuine files and equal (within 4096 bytes) for all announced lengths; a single request above "
+            "2^29 bytes is refused by the harness allocator (the process aborts and the case fails); the CLI binary on such files under a 1 GiB "
+            "RLIMIT_AS: exit status 1 with an Error line and ru_maxrss within 8 MiB of a genuine 8 MiB decrypt. non-trivial = all; distinct = distinct driver lines / argv")
     assumptions = ["heap usage is what passes through Rust's global allocator (requested sizes); stack frames are fixed-size in this code",
                    "the generator reader / counting sink / capped BufReader<File> in harness/libdrv/src/mem.rs stand for arbitrary Read / Write implementations",
                    "sizes above 4 GiB + 5 are not run; the constant bound is argued for all sizes by the model's trace shape"]
@@ -1235,8 +1770,91 @@ class C11(MiscProp):
 
     def run(self, ctx):
         self.measure(ctx)
+        self.hostile_lengths(ctx)
         self.traces(ctx)
         self.process_streaming(ctx)
+
+    # ---------------------------------------------------------------- forged chunk headers: the announced length must not size anything
+    HOSTILE = [BIG + 1, 1 << 17, 1 << 20, 1 << 24, 1 << 28, 1 << 31, 0xFFFFFFFF]
+    FORGED_REQ_CAP = 1 << 29          # harness/libdrv/src/mem.rs: a single request above this is refused (abort)
+
+    def hostile_lengths(self, ctx):
+        """library level: a file written by the library itself whose header of chunk k (first / a later / the last chunk)
+        announces a length above the chunk size — 65537 .. 2^32-1 — with the rest of the file kept, cut off after the header,
+        or padded so that the announced body IS there; decrypt is measured under the counting allocator"""
+        rng = ctx.rng
+        full = ctx.thorough()
+        n = 3 * BIG + rng.randrange(1, BIG)          # chunks 0..2 full, chunk 3 short and last
+        jobs = []
+        for prof, binp in (("release", self.rel), ("dev", ctx.bin)):
+            for op in ("mem_key_forged", "mem_pass_forged"):
+                key = op == "mem_key_forged"
+                vals = list(self.HOSTILE) + [rng.randrange(BIG + 1, 1 << 32) for _ in range(4 if full else 2)]
+                if not key and not full:
+                    vals = [BIG + 1, 1 << 24, 0xFFFFFFFF, rng.randrange(BIG + 1, 1 << 32)]
+                cases = []
+                for a in vals:
+                    idxs = [0, rng.choice([1, 2]), 3] if (key or full) else [rng.choice([0, 0, 1, 2, 3])]
+                    for k in idxs:
+                        tails = ["keep", "cut"] + (["pad"] if a <= (1 << 24) or full else [])
+                        cases.append((k, a, rng.choice(tails)))
+                if key:
+                    # lengths inside the legal range that are not the chunk's own length: nothing to refuse up front, still an error, still bounded
+                    cases += [(rng.choice([0, 1, 2]), a, rng.choice(["keep", "cut"])) for a in (0, 1, BIG - 1, rng.randrange(2, BIG - 1))]
+                rsz = rng.choice([BIG, BIG, 4096, 100000])
+                lines = ["%s %d %d %d %d %s" % (op, n, rsz, k, a, t) for (k, a, t) in cases]
+                jobs.append((prof, binp, op, lines))
+        with ThreadPoolExecutor(max_workers=vlib.NPROC) as ex:
+            outs = list(ex.map(lambda j: drv(j[1], j[3], timeout=3000), jobs))
+        groups = collections.defaultdict(list)
+        for (prof, binp, op, lines), rs in zip(jobs, outs):
+            for line, r in zip(lines, rs):
+                t = line.split()
+                k, a = int(t[3]), int(t[4])
+                inp = {"driver": "libdrv", "profile": prof, "lines": [line], "oracle": "forged"}
+                self.ran(ctx, "forged-length/%s/%s" % (prof, op))
+                self.count(ctx, "forged:chunk=%s announced=%s tail=%s" % ("first" if k == 0 else "last" if k == 3 else "later",
+                                                                            "<=64KiB" if a <= BIG else "<=16MiB" if a <= (1 << 24) else ">16MiB", t[5]))
+                bad = self.forged_oracle(line, r)
+                ctx.oracle_checks += 1
+                if bad:
+                    if len(ctx.violations) < MAX_VIOLATIONS:
+                        ctx.violations.append({"input": inp, "expected": bad[0], "observed": bad[1] + "  [" + r["raw"][:400] + "]", "finding_key": None})
+                    continue
+                if a > BIG:
+                    groups[(prof, op, k == 0)].append((a, int(r["peak"]), int(r["bigreq"]), line))
+                if a == 0xFFFFFFFF:
+                    self.sample(ctx, {"gen": "forged-length", "profile": prof, "line": line, "reply": r["raw"][:300]})
+        for (prof, op, first), g in groups.items():
+            pk, rq = [x[1] for x in g], [x[2] for x in g]
+            inp = {"driver": "libdrv", "profile": prof, "lines": [x[3] for x in g], "oracle": "forged-indep"}
+            self.check(ctx, max(pk) - min(pk) < 4096 and max(rq) - min(rq) < 4096, inp,
+                       "peak heap and largest single allocation while rejecting do not depend on the announced length (within 4096 bytes) over announced lengths %s"
+                       % sorted(set(x[0] for x in g)), "peak %s largest request %s" % (pk, rq))
+
+    @staticmethod
+    def forged_oracle(line, r):
+        t = line.split()
+        op, a = t[0], int(t[4])
+        key_mode = "key" in op
+        what = "chunk %s of a %s-byte stream announces %d bytes (%s)" % (t[3], t[1], a, t[5])
+        if r.get("outcome") == "abort":
+            return ("%s: decryption returns an error value; no single allocation above %d bytes is ever requested (the harness allocator refuses such a "
+                    "request, which aborts the process)" % (what, C11.FORGED_REQ_CAP), "the driver process died: " + r.get("raw", "")[:120])
+        if not str(r.get("outcome", "")).startswith("err:"):
+            return ("%s: decryption returns an error value" % what, r.get("outcome"))
+        g = lambda k: int(r.get(k, "-1"))
+        if g("iopeak") > STREAM_BOUND:
+            return ("%s: heap held across I/O calls <= %d bytes whatever the header says" % (what, STREAM_BOUND), "iopeak=%d" % g("iopeak"))
+        lim = STREAM_BOUND + (0 if key_mode else SCRYPT_MEM)
+        if g("peak") > lim:
+            return ("%s: peak heap during the call <= %d bytes whatever the header says" % (what, lim), "peak=%d" % g("peak"))
+        if g("bigreq") > lim:
+            return ("%s: no single allocation larger than %d bytes" % (what, lim), "largest request=%d" % g("bigreq"))
+        return None
+
+    def recheck_forged(self, inp, rs):
+        return self.forged_oracle(inp["lines"][0], rs[0]) is None
 
     # ---------------------------------------------------------------- the real CLI process fed through pipes
     @staticmethod
@@ -1363,15 +1981,7 @@ class C11(MiscProp):
     @staticmethod
     def file_job(job):
         """a complete run over a regular file; returns (rc, peak RSS of that child in bytes)"""
-        p = subprocess.Popen([vlib.CLIDRV] + job["argv"], env=cli_env(job["env"]), stdin=subprocess.DEVNULL,
-                             stdout=subprocess.DEVNULL, stderr=subprocess.PIPE, start_new_session=True)
-        dog = threading.Timer(120, p.kill)
-        dog.start()
-        err = p.stderr.read()
-        _, status, ru = os.wait4(p.pid, 0)
-        dog.cancel()
-        p.returncode = os.waitstatus_to_exitcode(status)
-        return {"rc": p.returncode, "maxrss": ru.ru_maxrss * 1024, "stderr": err.decode("utf-8", "replace")[-300:]}
+        return c11_measured_run(job["argv"], job["env"])
 
     def process_streaming(self, ctx):
         MiB = 1 << 20
@@ -1407,9 +2017,31 @@ class C11(MiscProp):
             ]
             feeds.append({"label": "password encrypt (stdin -> stdout)", "argv": ["password", "encrypt", "--env-pass"],
                           "env": envp, "how": "stdin", "out": None, "need": enc_need, "dir": "enc"})
+            # -o names a path that ALREADY EXISTS (a second run over the same output): a non-empty file, an empty file, a symlink to a file
+            def pre(name, kind):
+                if kind == "symlink":
+                    open(P(name + ".target"), "wb").write(ctx.rbytes(ctx.rng.randrange(1, 5000)))
+                    os.symlink(P(name + ".target"), P(name))
+                else:
+                    open(P(name), "wb").write(b"" if kind == "empty" else hashlib.shake_256(ctx.rbytes(8)).digest(ctx.rng.randrange(1, 200000)))
+                return P(name)
+            os.mkfifo(P("fifo_key_ex"))
+            feeds += [
+                {"label": "password encrypt (stdin) -o <existing file>", "argv": ["password", "encrypt", "-o", pre("ox_stdin_pass.bin", "file"), "--env-pass"],
+                 "env": envp, "how": "stdin", "out": P("ox_stdin_pass.bin"), "need": enc_need, "dir": "enc"},
+                {"label": "encrypt <FIFO> -o <existing %s>" % "symlink to a file", "argv": ["encrypt", P("fifo_key_ex"), "-o", pre("ox_fifo_key.bin", "symlink")] + keyargs,
+                 "env": envs, "how": "fifo", "fifo": P("fifo_key_ex"), "out": P("ox_fifo_key.bin"), "need": enc_need, "dir": "enc"},
+                {"label": "password encrypt /dev/stdin -o <existing empty file>", "argv": ["password", "encrypt", "/dev/stdin", "-o", pre("ox_devstdin_pass.bin", "empty"), "--env-pass"],
+                 "env": envp, "how": "stdin", "out": P("ox_devstdin_pass.bin"), "need": enc_need, "dir": "enc"},
+            ]
             for j in feeds:
                 j.update(data=data, marks=[LO, HI])
             files = []
+            # regular input file, output path already holding an earlier output: peak RSS compared with the small fresh run of the same group
+            files.append({"label": "password encrypt <regular file hi> -o <existing file>", "size": "hi-existing", "grp": "pass-enc",
+                          "argv": ["password", "encrypt", P("plain_hi.bin"), "-o", pre("ctx_pass_hi.bin", "file"), "--env-pass"], "env": envp})
+            files.append({"label": "encrypt <regular file hi> -o <existing file>", "size": "hi-existing", "grp": "key-enc",
+                          "argv": ["encrypt", P("plain_hi.bin"), "-o", pre("ctx_key_hi.bin", "file")] + keyargs, "env": envs})
             for name in ("lo", "hi"):
                 files.append({"label": "password encrypt <regular file %s>" % name, "size": name, "grp": "pass-enc",
                               "argv": ["password", "encrypt", P("plain_%s.bin" % name), "-o", P("ct_pass_%s.bin" % name), "--env-pass"], "env": envp})
@@ -1445,6 +2077,16 @@ class C11(MiscProp):
                 os.mkfifo(P("fifo_dec"))
                 feeds2.append({"label": "decrypt <FIFO>", "argv": ["decrypt", P("fifo_dec"), "-t", "stream-recipient", "-o", P("d_fifo_key.bin"), "-k", kr, "--env-pass"],
                                "env": envr, "how": "fifo", "fifo": P("fifo_dec"), "out": P("d_fifo_key.bin"), "need": dec_need, "dir": "dec", "data": ctk, "marks": dmarks(ctk)})
+                feeds2 += [
+                    {"label": "password decrypt (stdin) -o <existing file>", "argv": ["password", "decrypt", "-o", pre("dx_stdin_pass.bin", "file"), "--env-pass"],
+                     "env": envp, "how": "stdin", "out": P("dx_stdin_pass.bin"), "need": dec_need, "dir": "dec", "data": ctp, "marks": dmarks(ctp)},
+                    {"label": "decrypt /dev/stdin -o <existing %s>" % "empty file", "argv": ["decrypt", "/dev/stdin", "-t", "stream-recipient", "-o", pre("dx_devstdin_key.bin", "empty"), "-k", kr, "--env-pass"],
+                     "env": envr, "how": "stdin", "out": P("dx_devstdin_key.bin"), "need": dec_need, "dir": "dec", "data": ctk, "marks": dmarks(ctk)},
+                ]
+                files2.append({"label": "password decrypt <regular file hi> -o <existing file>", "size": "hi-existing", "grp": "pass-dec",
+                               "argv": ["password", "decrypt", P("ct_pass_hi.bin"), "-o", pre("dx_pass_hi.bin", "file"), "--env-pass"], "env": envp})
+                files2.append({"label": "decrypt <regular file hi> -o <existing file>", "size": "hi-existing", "grp": "key-dec",
+                               "argv": ["decrypt", P("ct_key_hi.bin"), "-t", "stream-recipient", "-o", pre("dx_key_hi.bin", "symlink"), "-k", kr, "--env-pass"], "env": envr})
                 for name in ("lo", "hi"):
                     files2.append({"label": "password decrypt <regular file %s>" % name, "size": name, "grp": "pass-dec",
                                    "argv": ["password", "decrypt", P("ct_pass_%s.bin" % name), "-o", P("d_pass_%s.bin" % name), "--env-pass"], "env": envp})
@@ -1458,7 +2100,8 @@ class C11(MiscProp):
             seed_note = "input = SHAKE-256 stream from the run's seed; %d bytes, pauses after %d and at the end with the pipe still open" % (HI, LO)
             for j, res in zip(feeds + feeds2, r1):
                 inp = {"driver": "cli-process", "argv": j["argv"], "env": j["env"], "input_via": j["how"] + (" (named FIFO given as FILE)" if j["how"] == "fifo" else " pipe"),
-                       "note": seed_note, "marks": j["marks"]}
+                       "note": seed_note + ("; the -o path ALREADY EXISTS when the process starts (%s)" % j["label"].split("<existing ")[1].rstrip(">")
+                                            if "<existing " in j["label"] else ""), "marks": j["marks"]}
                 self.ran(ctx, "process/%s" % j["label"])
                 if not self.check(ctx, res["rc"] == 0 and len(res["marks"]) == len(j["marks"]), inp, "the CLI run succeeds",
                                   "rc=%s %s %s" % (res["rc"], res["stderr"][-200:], res["marks"])):
@@ -1482,7 +2125,8 @@ class C11(MiscProp):
                 self.sample(ctx, {"gen": "process", "label": j["label"], "marks": res["marks"]})
             grp = collections.defaultdict(dict)
             for j, res in zip(files + files2, r2):
-                inp = {"driver": "cli-process", "argv": j["argv"], "env": j["env"], "note": "regular file of %d bytes" % (LO if j["size"] == "lo" else HI)}
+                inp = {"driver": "cli-process", "argv": j["argv"], "env": j["env"], "note": "regular file of %d bytes" % (LO if j["size"] == "lo" else HI)
+                       + ("; the -o path already exists (a file / a symlink to a file written before the run)" if j["size"] == "hi-existing" else "")}
                 self.ran(ctx, "process/%s" % j["label"])
                 if self.check(ctx, res["rc"] == 0, inp, "the CLI run succeeds", "rc=%s %s" % (res["rc"], res["stderr"][-200:])):
                     grp[j["grp"]][j["size"]] = (res["maxrss"], inp)
@@ -1492,8 +2136,66 @@ class C11(MiscProp):
                                "peak resident memory (ru_maxrss) for a %d-byte file within %d bytes of that for a %d-byte file" % (HI, 2 * GROW, LO),
                                "maxrss %d vs %d" % (d["hi"][0], d["lo"][0]))
                     self.count(ctx, "file-maxrss-growth-KiB:%s=%d" % (g, (d["hi"][0] - d["lo"][0]) // 1024))
+                if "lo" in d and "hi-existing" in d:
+                    self.check(ctx, d["hi-existing"][0] - d["lo"][0] < 2 * GROW, d["hi-existing"][1],
+                               "peak resident memory (ru_maxrss) for a %d-byte file written to an -o path that already exists within %d bytes of that for a "
+                               "%d-byte file written to a new path" % (HI, 2 * GROW, LO), "maxrss %d vs %d" % (d["hi-existing"][0], d["lo"][0]))
+                    self.count(ctx, "file-maxrss-growth-KiB:%s(existing -o)=%d" % (g, (d["hi-existing"][0] - d["lo"][0]) // 1024))
+            self.cli_forged(ctx, P, kr, envp, envr, dict((g, d["lo"][0]) for g, d in grp.items() if "lo" in d), GROW)
         finally:
             shutil.rmtree(wd, ignore_errors=True)
+
+    CLI_AS_LIMIT_KIB = 1 << 20          # ulimit -v for the forged-file runs: 1 GiB of address space
+
+    @staticmethod
+    def limited_job(job):
+        """a complete CLI run under `ulimit -v` (address-space limit): (rc, peak RSS, stderr)"""
+        return c11_measured_run(job["argv"], job["env"], as_limit_kib=C11.CLI_AS_LIMIT_KIB)
+
+    def cli_forged(self, ctx, P, kr, envp, envr, base_rss, GROW):
+        """process level: the CLI's own ciphertexts (first three chunks) with one chunk header's length field forged, decrypted by the real binary
+        under a 1 GiB address-space limit: exit status 1 with an Error line, peak RSS as for a genuine small file"""
+        rng = ctx.rng
+        jobs = []
+        for mode, src, hdr in (("pass", "ct_pass_lo.bin", 36), ("key", "ct_key_lo.bin", 132)):
+            if not os.path.exists(P(src)) or ("%s-dec" % mode) not in base_rss:
+                self.count(ctx, "skipped:cli-forged-%s(no genuine ciphertext / baseline)" % mode)
+                continue
+            with open(P(src), "rb") as f:
+                head = f.read(hdr + 3 * (BIG + 32))
+            picks = [(0, 0xFFFFFFFF), (rng.choice([1, 2]), 1 << 31), (rng.choice([0, 1, 2]), 1 << 24), (rng.choice([0, 1, 2]), rng.randrange(1 << 25, 1 << 32))]
+            if ctx.thorough():
+                picks += [(k, a) for k in (0, 1, 2) for a in (BIG + 1, 1 << 20, 1 << 28, 1 << 30)]
+            for i, (k, a) in enumerate(picks):
+                off = hdr + k * (BIG + 32)
+                tail = rng.choice(["keep", "cut"])
+                blob = head[:off + 12] + a.to_bytes(4, "big") + (head[off + 16:] if tail == "keep" else b"")
+                name = "forged_%s_%d.bin" % (mode, i)
+                open(P(name), "wb").write(blob)
+                if mode == "pass":
+                    argv, env = ["password", "decrypt", P(name), "-o", P(name + ".out"), "--env-pass"], envp
+                else:
+                    argv, env = ["decrypt", P(name), "-t", "stream-recipient", "-o", P(name + ".out"), "-k", kr, "--env-pass"], envr
+                jobs.append({"argv": argv, "env": env, "mode": mode, "k": k, "a": a, "tail": tail, "sha": hashlib.sha256(blob).hexdigest(), "len": len(blob),
+                             "hdr": hdr})
+        if not jobs:
+            return
+        with ThreadPoolExecutor(max_workers=min(len(jobs), vlib.NPROC)) as ex:
+            rs = list(ex.map(self.limited_job, jobs))
+        for j, r in zip(jobs, rs):
+            inp = {"driver": "cli-process", "argv": j["argv"], "env": j["env"], "address_space_limit_KiB": self.CLI_AS_LIMIT_KIB,
+                   "note": "input file = the first %d bytes of the CLI's own %s-mode ciphertext of the seeded 8 MiB stream, the 4-byte length field of chunk %d "
+                           "(offset %d) overwritten with %d (big endian), rest of the file %s; %d bytes, sha256 %s"
+                           % (j["hdr"] + 3 * (BIG + 32), j["mode"], j["k"], j["hdr"] + j["k"] * (BIG + 32) + 12, j["a"],
+                              "kept" if j["tail"] == "keep" else "cut off after the header", j["len"], j["sha"])}
+            self.ran(ctx, "process/forged-length/%s" % j["mode"])
+            self.check(ctx, r["rc"] == 1 and "Error" in r["stderr"], inp,
+                       "a forged announced length is refused with exit status 1 and an Error line under a %d KiB address-space limit (no allocation sized by the header)"
+                       % self.CLI_AS_LIMIT_KIB, "rc=%s %s" % (r["rc"], r["stderr"][-200:]))
+            b = base_rss["%s-dec" % j["mode"]]
+            self.check(ctx, r["maxrss"] - b < 2 * GROW, inp,
+                       "peak resident memory (ru_maxrss) while rejecting within %d bytes of that of decrypting a genuine %d-byte file (%d)" % (2 * GROW, 8 << 20, b),
+                       "maxrss %d" % r["maxrss"])
 
     def measure(self, ctx):
         MiB = 1 << 20
@@ -1725,6 +2427,29 @@ def ref_scrypt(pw, salt, N, r, p, dklen):
     return py_scrypt(pw, salt, N, r, p, dklen)
 
 
+# call sequences through the model of the exported C function (Model/ScryptFfi.v) over ONE abstract memory that is threaded
+# through the calls (password at 0, salt at 4096, the 0x5A-prefilled output region at 8192): the model's only state is the memory
+FFI_SEQ_PREAMBLE = SCRYPT_PREAMBLE + """From Kestrel.Model Require ScryptFfi.
+Definition ffi_step (m : ScryptFfi.mem) (c : bytes * bytes * (N * N * N * N)) : ScryptFfi.mem * bytes :=
+  let '(pw, salt, (n, r, p, l)) := c in
+  let m1 := ScryptFfi.mem_store (ScryptFfi.mem_store m 0 pw) 4096 salt in
+  let m2 := ScryptFfi.mem_store m1 8192 (List.repeat 90 (N.to_nat l)) in
+  let m3 := ScryptFfi.ffi_scrypt_mem pb1 m2 0 (N.of_nat (List.length pw)) 4096 (N.of_nat (List.length salt)) n r p 8192 l in
+  (m3, ScryptFfi.mem_load m3 8192 l).
+Fixpoint ffi_seq (m : ScryptFfi.mem) (cs : list (bytes * bytes * (N * N * N * N))) : list bytes :=
+  match cs with
+  | [] => []
+  | c :: t => let '(m', o) := ffi_step m c in o :: ffi_seq m' t
+  end.
+Definition run_ffi_seq (cs : list (bytes * bytes * (N * N * N * N))) : list bytes := ffi_seq (fun _ => 0) cs.
+(* the same calls, each from the RFC transcription alone: no state at all *)
+Definition run_spec_seq (cs : list (bytes * bytes * (N * N * N * N))) : list bytes :=
+  map (fun c => let '(pw, salt, (n, r, p, l)) := c in
+                Scrypt.scrypt pb1 pw salt (N.to_nat n) (N.to_nat r) (N.to_nat p) (N.to_nat l)) cs.
+Definition seq_eqb (a b : list bytes) : bool := list_eqb (list_eqb N.eqb) a b.
+"""
+
+
 class C18(MiscProp):
     id = "C18"
     rule = ("library: scrypt(pw, salt, N, r, p, dkLen) for the full grid N in {2,4,..,1024} x r in 1..4 x p in 1..3 x dkLen in "
@@ -1737,7 +2462,12 @@ class C18(MiscProp):
             "buffer: output = the RFC value, guards intact, exactly dkLen bytes written, for requests with r != p, "
             "|pw| != |salt|, pw != salt, dkLen in {1,31,32,33,64,200}; passwords of 1..100 bytes ending in one / two NUL bytes (library and C ABI); in-place use "
             "(the output region placed inside the salt buffer resp. the password buffer at several offsets and lengths: the value is that of the "
-            "ORIGINAL inputs, the rest of the aliased buffer unchanged). non-trivial = all; distinct = distinct requests")
+            "ORIGINAL inputs, the rest of the aliased buffer unchanged). call sequences: 2-4 calls made IN ONE PROCESS (C ABI: one process per sequence "
+            "and all sequences in one further process; library: all calls in one driver process) whose members share the concatenation password||salt "
+            "with the boundary moved, repeat one request with equal / shrinking / growing dkLen, permute or change one of N, r, p, exchange password and "
+            "salt, or differ by one byte at either end; every call must return the RFC value of its own arguments (OpenSSL), and for N <= 16, r, p <= 2 "
+            "the whole sequence is also evaluated through Model/ScryptFfi.v's ffi_scrypt over one memory threaded through the calls and through "
+            "Spec/Scrypt.v. non-trivial = all; distinct = distinct requests")
     assumptions = ["OpenSSL's EVP scrypt (through Python's hashlib) is the reference RFC 7914 implementation",
                    "parameters outside the documented domain (N not a power of two or < 2, r = 0, p = 0, dkLen = 0) are not exercised",
                    "the C ABI check sees writes within 64 bytes before / after the output buffer; stray writes elsewhere are not observable"]
@@ -1749,6 +2479,154 @@ class C18(MiscProp):
         self.library(ctx)
         self.internals(ctx)
         self.ffi(ctx)
+        self.call_sequences(ctx)
+
+    # ---------------------------------------------------------------- call sequences in ONE process (C ABI and library)
+    def gen_sequences(self, ctx):
+        """families of call sequences whose members differ in where a boundary lies or in one argument only; (family, [request, ...])"""
+        rng = ctx.rng
+        full = ctx.thorough()
+        DKS = [1, 16, 31, 32, 33, 64]
+
+        def prm(small):
+            if small:
+                return rng.choice([2, 4, 8, 16]), rng.choice([1, 1, 2]), rng.choice([1, 1, 2])
+            return rng.choice([2, 16, 64, 256, 1024]), rng.choice([1, 2, 3, 8]), rng.choice([1, 2, 3])
+
+        def dks(k, small):
+            pool = [d for d in DKS if d <= 64] if small else DKS + [100, 200]
+            how = rng.choice(["same", "down", "up", "any"])
+            if how == "same":
+                return [rng.choice(pool)] * k
+            ds = [rng.choice(pool) for _ in range(k)]
+            return sorted(ds, reverse=True) if how == "down" else sorted(ds) if how == "up" else ds
+
+        def req(pw, salt, n, r, p, dk):
+            return {"pw": pw.hex(), "salt": salt.hex(), "n": n, "r": r, "p": p, "dklen": dk, "guard": rng.choice([16, 64])}
+
+        seqs = []
+        reps = 6 if full else 2
+        for small in (True, False):
+            for _ in range(reps):
+                # A. the password/salt boundary moves over one and the same concatenation
+                n, r, p = prm(small)
+                s_ = ctx.rbytes(rng.randrange(2, 25)) if rng.random() < 0.8 else rng.choice([b"hunter2NaCl", b"abc", b"\x00\x00\x00"])
+                cuts = rng.sample(range(0, len(s_) + 1), min(len(s_) + 1, rng.choice([2, 3])))
+                if rng.random() < 0.3:
+                    cuts[-1] = rng.choice([0, len(s_)])
+                    cuts = list(dict.fromkeys(cuts))
+                    if len(cuts) < 2:
+                        cuts = [0, len(s_)]
+                calls = [req(s_[:c], s_[c:], n, r, p, dk) for c, dk in zip(cuts, dks(len(cuts), small))]
+                if rng.random() < 0.4:      # an unrelated call in between
+                    calls.insert(1, req(ctx.rbytes(rng.randrange(0, 9)), ctx.rbytes(rng.randrange(0, 9)), *prm(small), rng.choice(DKS)))
+                seqs.append(("boundary-shift", calls))
+                # B. the identical request repeated, output lengths equal / shrinking / growing
+                n, r, p = prm(small)
+                pw, salt = ctx.rbytes(self.plen(ctx) % 40), ctx.rbytes(self.plen(ctx) % 40)
+                k = rng.choice([2, 3])
+                seqs.append(("repeat", [req(pw, salt, n, r, p, dk) for dk in dks(k, small)]))
+                # C. same password and salt, the cost parameters permuted / one of them changed
+                n, r, p = prm(small)
+                pw, salt = ctx.rbytes(rng.randrange(0, 20)), ctx.rbytes(rng.randrange(0, 20))
+                trip = [(n, r, p), (n, p, r) if r != p else (n, r + 1, p), (n * 2, r, p), (n, r, p + 1), (max(2, n // 2), r, p)]
+                trip = [trip[0]] + rng.sample(trip[1:], rng.choice([1, 2]))
+                rng.shuffle(trip)
+                dk = rng.choice(DKS)
+                seqs.append(("parameters-change", [req(pw, salt, a, b, c, dk) for (a, b, c) in trip]))
+                # D. password and salt exchanged, then back
+                n, r, p = prm(small)
+                a, b = ctx.rbytes(rng.randrange(1, 12)), ctx.rbytes(rng.randrange(1, 12))
+                dk = rng.choice(DKS)
+                seqs.append(("exchange", [req(a, b, n, r, p, dk), req(b, a, n, r, p, dk)] + ([req(a, b, n, r, p, dk)] if rng.random() < 0.5 else [])))
+                # E. one side extended / truncated by a byte, or emptied into the other
+                n, r, p = prm(small)
+                a, b = ctx.rbytes(rng.randrange(1, 12)), ctx.rbytes(rng.randrange(1, 12))
+                ext = rng.choice([b"\x00", b"\x01", ctx.rbytes(1)])
+                var = rng.sample([(a + ext, b), (a, b + ext), (a[:-1], b), (a, b[:-1]), (a + b, b""), (b"", a + b), (a, ext + b), (a[:-1], a[-1:] + b)], 2)
+                dl = dks(3, small)
+                seqs.append(("one-byte-apart", [req(a, b, n, r, p, dl[0])] + [req(x, y, n, r, p, d) for (x, y), d in zip(var, dl[1:])]))
+        # the concatenation classic, fixed
+        seqs.append(("boundary-shift", [req(b"ab", b"c", 4, 1, 1, 32), req(b"a", b"bc", 4, 1, 1, 32), req(b"abc", b"", 4, 1, 1, 16), req(b"", b"abc", 4, 1, 1, 16)]))
+        return seqs
+
+    @staticmethod
+    def seq_is_small(calls):
+        return all(q["n"] <= 16 and q["r"] <= 2 and q["p"] <= 2 and q["dklen"] <= 64 and len(q["pw"]) <= 80 and len(q["salt"]) <= 80 for q in calls)
+
+    def call_sequences(self, ctx):
+        if not os.path.exists(vlib.FFI_SO):
+            return
+        seqs = self.gen_sequences(ctx)
+        # C ABI: one process per sequence, and ALL sequences one after the other in one further process
+        batch = [{"seq": [dict(q) for q in calls]} for _, calls in seqs]
+        batch.append({"seq": [dict(q) for _, calls in seqs for q in calls]})
+        outs = ffi_call(batch)
+        # library: all calls in order in one driver process
+        flat = [q for _, calls in seqs for q in calls]
+        lib = drv(ctx.bin, ["scrypt %s %s %d %d %d %d" % (q["pw"] or "-", q["salt"] or "-", q["n"], q["r"], q["p"], q["dklen"]) for q in flat])
+        wants = [ref_scrypt(bytes.fromhex(q["pw"]), bytes.fromhex(q["salt"]), q["n"], q["r"], q["p"], q["dklen"]) for q in flat]
+        pos = 0
+        items, inputs, impls = [], {}, {}
+        allrep = outs[-1].get("seq") if isinstance(outs[-1], dict) else None
+        for si, ((fam, calls), o) in enumerate(zip(seqs, outs)):
+            reps = o.get("seq")
+            self.ran(ctx, "sequence/ffi/%s" % fam)
+            self.count(ctx, "sequence-length=%d" % len(calls))
+            inp_all = {"driver": "ffidrv/call.py", "ffi_seq": calls, "note": "the calls are made in this order in ONE process"}
+            if not self.check(ctx, isinstance(reps, list) and len(reps) == len(calls), inp_all, "every call of the sequence returns", json.dumps(o)[:400]):
+                pos += len(calls)
+                continue
+            for ci, (q, rep) in enumerate(zip(calls, reps)):
+                want = wants[pos + ci]
+                inp = dict(inp_all, failing_call=ci)
+                self.check(ctx, rep.get("out") == want.hex() and rep.get("guard_ok") is True, inp,
+                           "call %d of the sequence writes the RFC 7914 value of ITS OWN arguments, %s, whatever was computed before; guards intact"
+                           % (ci, want.hex()[:128]), json.dumps(rep)[:400])
+                if allrep and len(allrep) == len(flat):
+                    self.check(ctx, allrep[pos + ci].get("out") == want.hex(), {"driver": "ffidrv/call.py", "ffi_seq": flat[:pos + ci + 1], "failing_call": pos + ci,
+                                                                                  "note": "the calls are made in this order in ONE process"},
+                               "call %d of the long sequence writes the RFC 7914 value of its own arguments %s" % (pos + ci, want.hex()[:128]),
+                               json.dumps(allrep[pos + ci])[:400])
+                l = lib[pos + ci]
+                self.check(ctx, l.get("outcome") == "ok" and l.get("out") == want.hex(),
+                           {"driver": "libdrv", "lines": ["scrypt %s %s %d %d %d %d" % (x["pw"] or "-", x["salt"] or "-", x["n"], x["r"], x["p"], x["dklen"])
+                                                          for x in flat[:pos + ci + 1]], "oracle": "scrypt_seq"},
+                           "library: the last call of this driver script returns the RFC 7914 value " + want.hex()[:128], l["raw"][:300])
+            if self.seq_is_small(calls):
+                g = "[" + "; ".join("(%s, %s, (%d, %d, %d, %d))" % (g_bytes(bytes.fromhex(q["pw"])), g_bytes(bytes.fromhex(q["salt"])), q["n"], q["r"], q["p"], q["dklen"])
+                                    for q in calls) + "]"
+                obs = "[" + "; ".join(g_bytes(bytes.fromhex(rep.get("out", ""))) for rep in reps) + "]"
+                items.append((si, "seq_eqb (run_ffi_seq %s) %s && seq_eqb (run_spec_seq %s) %s" % (g, obs, g, obs), 2 * sum(q["n"] * q["r"] * q["p"] + 4 for q in calls)))
+                inputs[si], impls[si] = inp_all, json.dumps(reps)[:600]
+            pos += len(calls)
+        self.check(ctx, allrep is not None and len(allrep) == len(flat), {"driver": "ffidrv/call.py", "ffi_seq": flat}, "the long sequence (all calls in one process) returns",
+                   json.dumps(outs[-1])[:300])
+        if coq_has("Spec/Scrypt.v", "Model/ScryptImpl.v", "Model/ScryptFfi.v", "Spec/Salsa.v", "Spec/Pbkdf2.v"):
+            if not ctx.thorough() and len(items) > 14:
+                items = ctx.rng.sample(items[:-1], 13) + [items[-1]]
+            res_m, log = coq_eval(ctx.pid + "q", items, preamble=FFI_SEQ_PREAMBLE)
+            self.model_results(ctx, "gallina-ffi-call-sequences(ScryptFfi over one memory + RFC spec)", items, res_m, log, inputs, impls)
+        else:
+            self.count(ctx, "skipped:gallina-ffi-call-sequences(Model/ScryptFfi.v absent)")
+        self.sample(ctx, {"gen": "sequence", "sequences": len(seqs), "calls": len(flat), "example": seqs[-1][1][:2]})
+
+    def recheck_scrypt_seq(self, inp, rs):
+        _, pw, salt, N, r, p, dk = inp["lines"][-1].split()
+        return rs[-1].get("outcome") == "ok" and unhex(rs[-1]["out"]) == ref_scrypt(unhex(pw), unhex(salt), int(N), int(r), int(p), int(dk))
+
+    def replay(self, ctx, payload):
+        inp = payload.get("input", {})
+        if isinstance(inp, dict) and inp.get("ffi_seq"):
+            calls = [dict(q) for q in inp["ffi_seq"]]
+            rep = ffi_call([{"seq": calls}])[0]
+            out = {"holds": False, "expected": payload.get("expected"), "implementation": rep}
+            reps = rep.get("seq")
+            if isinstance(reps, list) and len(reps) == len(calls):
+                out["holds"] = all(r_.get("guard_ok") is True and r_.get("out") == ref_scrypt(bytes.fromhex(q["pw"]), bytes.fromhex(q["salt"]), q["n"], q["r"], q["p"],
+                                                                                                q["dklen"]).hex() for q, r_ in zip(calls, reps))
+            return out
+        return super().replay(ctx, payload)
 
     def selftest(self, ctx):
         ok = True
@@ -2068,6 +2946,156 @@ def parse_freed(s):
     return sec(a), sec(b)
 
 
+# ---- C20: placement variety (driver op z_place, harness/libdrv/src/zplace.rs)
+ZP_WRAPS = ("bare", "opt", "after1", "after3", "tup", "enum", "mixed", "arr")
+ZP_RELS = ("drop", "zeroize", "clear", "unwind")
+ZP_CLONES = ("none", "ofirst", "cfirst")
+ZP_FILL = 0xEE
+ZP_FIELDS = ("kind", "ctor", "wrap", "rel", "clone", "store", "offa", "offb", "skew", "key")
+
+
+def zp_line(c):
+    return "z_place %s %s %s %s %s %s %d %d %d %s" % (c["kind"], c["ctor"], c["wrap"], c["rel"], c["clone"], c["store"],
+                                                       c["offa"], c["offb"], c["skew"], c["key"].hex())
+
+
+def zp_parse_line(line):
+    a = line.split()
+    c = dict(zip(ZP_FIELDS, a[1:11]))
+    for k in ("offa", "offb", "skew"):
+        c[k] = int(c[k])
+    c["key"] = bytes.fromhex(c["key"])
+    return c
+
+
+def zp_window(hay, key, w):
+    """first position in `hay` where w consecutive bytes of `key` (any alignment inside the key) are found, or None"""
+    for i in range(0, 32 - w + 1):
+        at = hay.find(key[i:i + w])
+        if at >= 0:
+            return at, i
+    return None
+
+
+def zp_eval(c, r):
+    """direct oracle for one z_place case: c = the case (zp_parse_line), r = the driver's reply.
+    Returns dict(fails=[(expected, observed)], mach=[text], checks=int, journal=[bytes] (contents of every key's
+    storage right after its release, release order), total=int (containers), kmods=[address mod 8 / mod 16], vacuous=bool)"""
+    out = {"fails": [], "mach": [], "checks": 0, "journal": [], "total": 0, "kmods": [], "ran": False}
+    out["checks"] += 1
+    if r.get("outcome") != "ok" or r.get("overflow", "0") != "0" or "snaps" not in r:
+        out["fails"].append(("the placement case runs", r["raw"][:300]))
+        return out
+    out["ran"] = True
+    key, kind = c["key"], c["kind"]
+    n, size, offa, offb = int(r["n"]), int(r["size"]), int(r["offa"]), int(r["offb"])
+    has_b = c["clone"] != "none"
+    lst = lambda x: [] if x in ("-", "") else [int(t) for t in x.split(",")]
+    kpos = {"A": lst(r.get("ka", "-")), "B": lst(r.get("kb", "-"))}
+    off = {"A": offa, "B": offb}
+    present = ["A"] + (["B"] if has_b else [])
+    out["total"] = n * len(present)
+    snaps = []
+    for t in r["snaps"].split(";"):
+        f = t.split(":")
+        if len(f) != 6:
+            out["mach"].append("z_place: malformed snapshot " + t[:80])
+            return out
+        heap = lambda x: [] if x == "-" else x.split(",")
+        snaps.append({"label": f[0], "A": bytes.fromhex(f[1]), "B": bytes.fromhex(f[2]), "hA": heap(f[3]), "hB": heap(f[4]), "nrec": int(f[5])})
+    if not snaps or snaps[0]["label"] != "pre" or len(kpos["A"]) != n or (has_b and len(kpos["B"]) != n):
+        out["mach"].append("z_place: no initial snapshot / key positions missing: " + r["raw"][:200])
+        return out
+    pre = snaps[0]
+    where = lambda X, i: ("%s key %d of %s<%s> (value at offset %d of a 16-byte aligned %s block, %s)"
+                          % ("clone's" if X == "B" else "original's", i, c["wrap"], "PayloadKey" if kind == "K" else "PrivateKey",
+                             off[X], c["store"],
+                             ("key bytes at offset %d, address = %d mod 8" % (kpos[X][i], kpos[X][i] % 8)) if kind == "K"
+                             else ("key heap block at address = %d mod 16" % kpos[X][i])))
+    # --- self-test of the placement: the key IS where the driver says, the rest of the block is filler
+    for X in present:
+        for i in range(n):
+            if kind == "K":
+                o = kpos[X][i]
+                if not (off[X] <= o and o + 32 <= off[X] + size and pre[X][o:o + 32] == key):
+                    out["mach"].append("z_place self-test: before the release the %s does not hold the key: %s" % (where(X, i), pre[X].hex()))
+                    return out
+            else:
+                if i >= len(pre["h" + X]) or pre["h" + X][i] != key.hex():
+                    out["mach"].append("z_place self-test: before the release the %s does not hold the key: %s" % (where(X, i), pre["h" + X]))
+                    return out
+            out["kmods"].append((kind, kpos[X][i] % (8 if kind == "K" else 16)))
+    for sn in snaps:
+        for X in ("A", "B"):
+            blk = sn[X]
+            lo, hi = (off[X], off[X] + size) if X in present else (0, 0)
+            if any(b != ZP_FILL for b in blk[:lo] + blk[hi:]):
+                out["mach"].append("z_place self-test: bytes outside the value changed (%s, block %s): %s" % (sn["label"], X, blk.hex()))
+                return out
+    # --- the oracle: after every release step the key's bytes are zero (all 32, wherever the value lives)
+    released, nrel = set(), 0
+    for sn in snaps[1:]:
+        step, X = sn["label"][:-1], sn["label"][-1]
+        if step == "drop":
+            released.add(X)
+            nrel += n
+        for Y in present:
+            if not (Y == X or Y in released):
+                continue
+            for i in range(n):
+                if kind == "K":
+                    got = sn[Y][kpos[Y][i]:kpos[Y][i] + 32]
+                    out["checks"] += 1
+                    if got != Z32:
+                        surv = [j for j in range(32) if got[j] == key[j]]
+                        out["fails"].append(("after '%s' (release mode %s) all 32 bytes of the %s are zero" % (sn["label"], c["rel"], where(Y, i)),
+                                             "%s: %d of 32 key bytes survive at positions %s" % (got.hex(), len(surv), surv)))
+                    if step == "drop" and Y == X:
+                        out["journal"].append(got)
+                else:
+                    got = sn["h" + Y][i] if i < len(sn["h" + Y]) else "?"
+                    out["checks"] += 1
+                    if got != "x" and got != Z32.hex():       # x: released, the allocator's record is checked below
+                        out["fails"].append(("after '%s' (release mode %s) the heap block of the %s holds 32 zero bytes (or has been released wiped)"
+                                             % (sn["label"], c["rel"], where(Y, i)), got))
+        if kind == "P" and step == "drop":
+            out["checks"] += 1
+            if sn["nrec"] != nrel:
+                out["fails"].append(("after '%s' %d key heap blocks have been released (one per PrivateKey, clones own their own block)" % (sn["label"], nrel),
+                                     "%d records" % sn["nrec"]))
+    # --- nothing of the key remains ANYWHERE in the storage (all bytes of both blocks)
+    w = 4 if kind == "K" else 8        # P: the blocks hold pointers; 8-byte windows cannot match by chance
+    last = snaps[-1]
+    for X in present:
+        out["checks"] += 1
+        hit = zp_window(last[X], key, w)
+        if hit:
+            out["fails"].append(("after all releases no %d consecutive key bytes remain anywhere in the %d bytes of storage block %s" % (w, len(last[X]), X),
+                                 "key bytes %d.. found at offset %d: %s" % (hit[1], hit[0], last[X].hex())))
+    if kind == "P":
+        recs = [] if r.get("freed", "-") in ("-", "") else [bytes.fromhex(h) for h in r["freed"].split(",")]
+        out["checks"] += 2
+        if not all(x == Z32 for x in recs):
+            out["fails"].append(("every released key heap block holds 32 zero bytes at the moment of release", r.get("freed", "-")[:600]))
+        if len(recs) != out["total"]:
+            out["fails"].append(("one allocator record per PrivateKey: %d" % out["total"], "%d records" % len(recs)))
+        out["journal"] = recs
+    return out
+
+
+def zp_model(c, n, total):
+    """the Model/Zeroize.v history of a z_place case: the value holds n keys (key, clone, clone: Arr) and may be cloned
+    as a whole; every in-place release is n ODrops (explicit zeroize / clear before it do not change the journal)"""
+    ops = ["ONew %s" % g_bytes(c["key"])] + ["OClone %d%%nat" % (i - 1) for i in range(1, n)]
+    if c["clone"] != "none":
+        ops += ["OClone %d%%nat" % i for i in range(n)]
+    fin = []
+    if c["clone"] == "cfirst":
+        fin += ["ODrop %d%%nat" % n] * n
+    fin += ["ODrop 0%nat"] * (total - len(fin))
+    return "[" + "; ".join(ops) + "]", "[" + "; ".join(fin) + "]"
+
+
 class C20(MiscProp):
     id = "C20"
     rule = ("histories over a list of live key containers in the driver (np = PrivateKey::try_from, ng = PrivateKey::generate with "
@@ -2082,9 +3110,19 @@ class C20(MiscProp):
             "every record is 32 zero bytes, one record per container, in release order; the journal is compared with "
             "Model/Zeroize.v (run true ops, observe) and must differ from the model without the zeroize call; whole-API scans "
             "(z_api noise_enc / key_enc / key_dec): no released block contains the caller's private key; dev and release profile. "
-            "controls: a plain Vec and an un-wiped copy ARE seen by the observer. non-trivial = histories with >= 1 container")
+            "controls: a plain Vec and an un-wiped copy ARE seen by the observer. non-trivial = histories with >= 1 container. "
+            "PLACEMENT VARIETY (driver op z_place, harness/libdrv/src/zplace.rs): every key type (PayloadKey::new; PrivateKey::try_from / generate) is constructed IN PLACE at every "
+            "offset 0..15 of a 16-byte aligned heap or stack block the driver keeps, as itself and as a part of Option<key>, repr(C) {u8, key}, "
+            "repr(C) {[u8;3], key}, (u8, key), enum {A(u16), B(key)}, {bool, Option<key>, u64} (the shape of the Noise CipherState) and "
+            "repr(C) {u8, [key;3]}; optionally cloned as a whole into a second block at another offset (original or clone released first); "
+            "released by ptr::drop_in_place, by Zeroize::zeroize() followed by drop_in_place, by assigning None to the Option inside, or by a "
+            "destructor that runs while a panic unwinds; for PrivateKey the global allocator additionally hands out the key's 32-byte Vec "
+            "buffer at every address 0..15 mod 16; ALL bytes of both storage blocks (and every still allocated key heap block) are read "
+            "back before the first and after every release step; oracle: all 32 bytes of every released / zeroized key are zero, no 4 "
+            "(PrivateKey blocks: 8) consecutive key bytes remain anywhere in the storage, one wiped allocator record per PrivateKey; the "
+            "journal (contents of each key's storage right after its release) is compared with Model/Zeroize.v as above")
     assumptions = ["the observation is of heap blocks (PrivateKey's Vec buffer; PayloadKey boxed by the driver); stack copies and registers are not observed",
-                   "PayloadKey is an inline array: its erasure is observed through Box<PayloadKey>, the Drop code is the same wherever the value lives",
+                   "PayloadKey is an inline array: in the histories its erasure is observed through Box<PayloadKey>; in the placement cases the value lives in a block owned by the driver (heap or the driver's stack frame) and is released in place (no move), so the bytes read back are the value's own storage",
                    "residue of the payload key in a released temporary Vec inside key_decrypt (not a key container) is recorded in the distribution as payload_residue_in_temporary, not flagged"]
     trusted_extra = ["harness/libdrv/src/zero.rs observing allocator"]
 
@@ -2202,6 +3240,9 @@ class C20(MiscProp):
             self.controls(ctx, prof, binp)
             self.run_histories(ctx, prof, binp, hs, model=(prof == "dev" or ctx.thorough()))
             self.api(ctx, prof, binp)
+        pcs = self.placements(ctx)
+        for prof, binp in profiles:
+            self.run_placements(ctx, prof, binp, pcs, model=(prof == "dev" or ctx.thorough()))
 
     def controls(self, ctx, prof, binp):
         K = self.key(ctx)
@@ -2268,6 +3309,113 @@ class C20(MiscProp):
                 ctx.broken.append({"kind": "correspondence", "what": "C20/%s: %d of %d journals are ALSO explained by the model WITHOUT the zeroize call "
                                    "(the comparison does not discriminate)%s" % (prof, nbad, len(nv_items), (" [" + log[-200:] + "]") if log else "")})
         self.sample(ctx, {"gen": "histories", "profile": prof, "count": len(hs), "example": bodies[3][:200], "reply": res[3]["raw"][:200]})
+
+    # ---- placement variety: keys constructed / cloned / released IN PLACE at every alignment (z_place)
+    def place_key(self, ctx, xor_zero=False):
+        """32 key bytes, none of them 0x00 / 0x01 / the filler (so that a surviving byte cannot be mistaken for a zero,
+        an Option / enum tag or filler); xor_zero: the bytes XOR to zero"""
+        bad = (0, 1, ZP_FILL)
+        while True:
+            k = bytes(ctx.rng.choice([b for b in range(256) if b not in bad]) for _ in range(31 if xor_zero else 32))
+            if xor_zero:
+                x = 0
+                for b in k:
+                    x ^= b
+                if x in bad:
+                    continue
+                k += bytes([x])
+            return k
+
+    def placements(self, ctx):
+        rng = ctx.rng
+        cs = []
+
+        def add(gen, kind, wrap, rel, clone=None, store=None, offa=None, offb=None, skew=None, ctor=None, xz=False):
+            cs.append({"gen": gen, "kind": kind, "wrap": wrap, "rel": rel,
+                       "ctor": "new" if kind == "K" else (ctor or rng.choice(["try", "gen"])),
+                       "clone": clone or rng.choice(ZP_CLONES), "store": store or rng.choice(["heap", "stack"]),
+                       "offa": rng.randrange(16) if offa is None else offa, "offb": rng.randrange(16) if offb is None else offb,
+                       "skew": (rng.randrange(16) if kind == "P" else 0) if skew is None else skew,
+                       "key": self.place_key(ctx, xz)})
+        if ctx.thorough():
+            for wrap in ZP_WRAPS:
+                for rel in ZP_RELS:
+                    for clone in ZP_CLONES:
+                        for off in range(16):
+                            for store in ("heap", "stack"):
+                                add("every-offset", "K", wrap, rel, clone=clone, store=store, offa=off)
+                            add("every-heap-skew", "P", wrap, rel, clone=clone, skew=off)
+        else:
+            for wrap in ZP_WRAPS:
+                for off in range(16):
+                    for rel in ("drop", "zeroize"):
+                        add("every-offset", "K", wrap, rel, offa=off)
+                    add("every-heap-skew", "P", wrap, ZP_RELS[(off + ZP_WRAPS.index(wrap)) % 4], skew=off, ctor=("try", "gen")[off % 2])
+                for rel in ("clear", "unwind"):
+                    for clone in ZP_CLONES:
+                        add("every-release-mode", "K", wrap, rel, clone=clone)
+        for wrap in ZP_WRAPS:
+            for kind in ("K", "P"):
+                add("xor-zero-key", kind, wrap, rng.choice(ZP_RELS), xz=True)
+        for _ in range(600 if ctx.thorough() else 80):
+            add("random", rng.choice(["K", "K", "P"]), rng.choice(ZP_WRAPS), rng.choice(ZP_RELS))
+        return cs
+
+    def run_placements(self, ctx, prof, binp, cs, model):
+        bodies, idx = [], []
+        for ci, c in enumerate(cs):
+            bodies.append("setrand %s" % (c["key"].hex() if c["ctor"] == "gen" else "none"))
+            idx.append(None)
+            bodies.append(zp_line(c))
+            idx.append(ci)
+        bodies.append("setrand none")
+        idx.append(None)
+        res = drv(binp, bodies)
+        items, inputs, impls, shows, nv_items = [], {}, {}, {}, []
+        for bi, (ci, r) in enumerate(zip(idx, res)):
+            if ci is None:
+                continue
+            c = cs[ci]
+            inp = {"driver": "libdrv", "profile": prof, "lines": [bodies[bi - 1], bodies[bi], "setrand none"], "oracle": "zplace"}
+            self.ran(ctx, "%s/place/%s/%s" % (prof, c["gen"], c["kind"]))
+            self.count(ctx, "place-shape=%s/%s" % (c["wrap"], prof))
+            ev = zp_eval(c, r)
+            for m in ev["mach"]:
+                self.machinery(ctx, "C20/%s: %s [%s]" % (prof, m[:500], bodies[bi][:120]))
+            ctx.oracle_checks += ev["checks"] - len(ev["fails"])
+            for exp, obs in ev["fails"][:3]:
+                self.check(ctx, False, inp, exp, obs)
+            ctx.oracle_checks += max(0, len(ev["fails"]) - 3)
+            if not ev["ran"] or ev["mach"]:
+                continue
+            self.count(ctx, "place-release-mode=%s/%s" % (r.get("rel"), prof))
+            self.count(ctx, "place-keys-released/" + prof, ev["total"])
+            for kind, m in ev["kmods"]:
+                self.count(ctx, ("place-PayloadKey-address-mod-8=%d/%s" if kind == "K" else "place-PrivateKey-heap-block-address-mod-16=%d/%s") % (m, prof))
+            if model:
+                ops, fin = zp_model(c, int(r["n"]), ev["total"])
+                lst = lambda xs: "[" + "; ".join(g_bytes(x) for x in xs) + "]"
+                a_ = "%s %s [] %s %d" % (ops, fin, lst(ev["journal"]), ev["total"])
+                hid = "9%05d" % ci
+                items.append((hid, "z_chk_x true " + a_, ev["total"] + 1))
+                inputs[hid], impls[hid], shows[hid] = inp, "journal: " + ",".join(x.hex() for x in ev["journal"]), "z_show_x %s %s" % (ops, fin)
+                if len(nv_items) < 200:
+                    nv_items.append((hid, "negb (z_chk_x false %s)" % a_, ev["total"] + 1))
+        if model:
+            pre = "From Kestrel.Model Require Import Zeroize.\n"
+            res_m, log = coq_eval(ctx.pid + "zp", items, preamble=pre)
+            self.model_results(ctx, "zeroize-journal-in-place/" + prof, items, res_m, log, inputs, impls, shows, preamble=pre)
+            res_n, log = coq_eval(ctx.pid + "np", nv_items, preamble=pre)
+            nbad = len([1 for it in nv_items if res_n.get(str(it[0])) is not True])
+            self.count(ctx, "in-place-journal-differs-from-model-without-zeroize/" + prof, len(nv_items) - nbad)
+            if nbad:
+                ctx.broken.append({"kind": "correspondence", "what": "C20/%s: %d of %d in-place journals are ALSO explained by the model WITHOUT the zeroize call "
+                                   "(the comparison does not discriminate)%s" % (prof, nbad, len(nv_items), (" [" + log[-200:] + "]") if log else "")})
+        self.sample(ctx, {"gen": "placements", "profile": prof, "count": len(cs), "example": bodies[1][:200], "reply": res[1]["raw"][:300]})
+
+    def recheck_zplace(self, inp, rs):
+        ev = zp_eval(zp_parse_line(inp["lines"][1]), rs[1])
+        return ev["ran"] and not ev["fails"] and not ev["mach"]
 
     def recheck_zhist(self, inp, rs):
         r = rs[1]
